@@ -20,9 +20,13 @@ Inductive case :=
 | CWin (w : window) (r : N) (slot : nat) (v : N)
        (impl_roll : window) (impl_sum : N) (impl_upd : window) (impl_last : N)
 (* NewManager(raw); ops; then Bytes(), and on NewManager(Bytes()): UnitPrices, UnitsConsumed, Window(i),
-   plus the timestamp read back by the harness, and Fee(fee_in) *)
-| CMgr (raw : list N) (ops : list mop) (impl_raw : list N) (impl_ts : N) (impl_prices impl_lasts : dims)
-       (impl_windows : list window) (fee_in : dims) (impl_fee : option N).
+   plus the timestamp read back by the harness, and Fee(fee_in).
+   Byte strings are transported as (length, big-endian uint64 words, zero padded) and expanded with
+   [words_bytes]. *)
+| CMgr (raw_len : nat) (raw_words : list N) (ops : list mop) (impl_len : nat) (impl_words : list N) (impl_ts : N)
+       (impl_prices impl_lasts : dims) (impl_windows : list window) (fee_in : dims) (impl_fee : option N).
+
+Definition words_bytes (len : nat) (ws : list N) : list N := firstn len (flat_map be64 ws).
 
 Definition list_eqb (a b : list N) : bool :=
   Nat.eqb (length a) (length b) && forallb (fun '(x, y) => N.eqb x y) (combine a b).
@@ -59,7 +63,9 @@ Definition check_case (c : case) : bool :=
   | CWin w r slot v iroll isum iupd ilast =>
       list_eqb (roll w r) iroll && N.eqb (wsum w) isum && list_eqb (wupdate w slot v) iupd &&
       N.eqb (wlast w) ilast
-  | CMgr raw ops iraw its iprices ilasts iwins fin ifee =>
+  | CMgr rlen rnum ops ilen inum its iprices ilasts iwins fin ifee =>
+      let raw := words_bytes rlen rnum in
+      let iraw := words_bytes ilen inum in
       match decode raw with
       | None => false
       | Some m0 =>
@@ -133,7 +139,8 @@ Definition spec_ok (c : case) : bool :=
       N.eqb isum (spec_total w) &&
       list_eqb iupd (map (fun i : nat => if Nat.eqb i slot then N.min MaxU64 (nth i w 0 + v) else nth i w 0) (seq 0 10)) &&
       N.eqb ilast (nth 9 w 0)
-  | CMgr raw ops iraw its iprices ilasts iwins fin ifee =>
+  | CMgr rlen rnum ops ilen inum its iprices ilasts iwins fin ifee =>
+      let iraw := words_bytes ilen inum in
       (* the encoded state decodes to the same prices, windows and consumption *)
       Nat.eqb (length iraw) 488 &&
       N.eqb its (word_at iraw 0) &&
